@@ -24,8 +24,8 @@ no entry in the map).  One log entry carries one row `(metric name, tag value)`.
 
 Not modelled (see design note): several leaders / follower consumer groups (C06/C08), torn
 writes inside one store operation (C01/C05), id assignment (C09), write failures, and the
-unprotected gap between `GetOrCreateMemoryDatabase` and `AcquireWrite` in `WriteRows`
-(`applyBegin` takes the memdb and registers the writer in one step).
+goroutine timing inside one event.  The gap between `GetOrCreateMemoryDatabase` and `AcquireWrite`
+in `WriteRows` IS modelled (`applyTake` / `applyAcquire`, merged when `Cfg.atomicAcquire`).
 -/
 namespace LinVerif.NodeRecovery
 
@@ -33,6 +33,10 @@ namespace LinVerif.NodeRecovery
 map is non-nil but empty?  (`false` for `if s.immutable == nil {`). -/
 structure Cfg where
   swapOnEmpty : Bool
+  /-- does `WriteRows` register as a writer of the memory database (`AcquireWrite`) in the same
+  family-mutex section that looks the database up?  (`false` for `GetOrCreateMemoryDatabase(...)`
+  followed by an unprotected `db.AcquireWrite()`). -/
+  atomicAcquire : Bool
 deriving DecidableEq, Repr
 
 /-- a row in a memory database / data file: the log entry it came from and the names it uses -/
@@ -107,9 +111,17 @@ structure InFlight where
   seq : Int
   metric : Nat
   tagv : Nat
-  toFrozen : Bool   -- the memdb taken at `WriteRows` start has meanwhile been swapped to immutable
+  taken : Bool      -- `WriteRows` has its memdb (`GetOrCreateMemoryDatabase`)
+  acquired : Bool   -- `db.AcquireWrite()` done: `FlushFamilyTo` of that memdb waits for this writer
+  toFrozen : Bool   -- the memdb taken has meanwhile been swapped to immutable
+  closed : Bool     -- ... and has been flushed and closed (`memDB.Close`) before the rows were written
   written : Bool    -- `WriteRow` + `row.Wait()` + `CompleteWrite` done, `CommitSequence` not yet
 deriving Repr
+
+/-- a replica write that has just passed `ValidateSequence` -/
+def InFlight.fresh (s : Int) (m t : Nat) : InFlight :=
+  { seq := s, metric := m, tagv := t, taken := false, acquired := false, toFrozen := false,
+    closed := false, written := false }
 
 inductive Phase
   | down      -- process dead
@@ -123,6 +135,7 @@ structure St where
   gcLow : Int                   -- entries below were truncated by `queue.GC`
   consumed : Int                -- consumer group meta page (mmap store survives a process crash)
   groupAck : Int
+  walGone : Bool                -- the partition's log directory was removed by the WAL garbage collector
   files : List DataFile         -- newest first
   stored : Option Int           -- `version.GetSequences()[leader]` of the current manifest
   metric : Dict Nat             -- metric-name (+ schema) dictionary of the metadata database
@@ -137,7 +150,7 @@ structure St where
 deriving Repr
 
 def St.init : St :=
-  { log := [], gcLow := 0, consumed := -1, groupAck := -1, files := [], stored := none,
+  { log := [], gcLow := 0, consumed := -1, groupAck := -1, walGone := false, files := [], stored := none,
     metric := Dict.empty, tagv := Dict.empty, index := Dict.empty,
     phase := .running, seq := none, memMut := [], frozen := none, inflight := none }
 
@@ -148,7 +161,9 @@ def St.appended (st : St) : Int := (st.log.length : Int) - 1
 
 inductive Ev
   | append (m t : Nat)   -- partition.WriteLog / queue.Put
-  | applyBegin           -- Consume, GetMessage, ValidateSequence, GetOrCreateMemoryDatabase+AcquireWrite
+  | applyBegin           -- partition.replica: Consume, GetMessage; Replica: ValidateSequence
+  | applyTake            -- WriteRows: GetOrCreateMemoryDatabase (family mutex)
+  | applyAcquire         -- WriteRows: db.AcquireWrite()
   | applyWrite           -- WriteRow (names -> metadata/index workers), row.Wait, CompleteWrite
   | applyCommit          -- CommitSequence
   | metaPrepare          -- metadataDatabase.handle: metaDB.PrepareFlush
@@ -160,6 +175,7 @@ inductive Ev
   | dataCommit           -- flushMemoryDatabase: FlushFamilyTo -> kv Commit (table + sequences)
   | ackCallback          -- the callbacks (consumer group Ack), memDB.Close, immutable := nil
   | logGC (k : Int)      -- fanOutQueue.Sync + queue.GC up to page boundary `k`
+  | walExpire            -- writeAheadLog.destroy of an expired family: IsExpire (every group IsEmpty) -> remove dir
   | crash
   | recover              -- kv / queue recovery, newDataFamily, NewLocalReplicator: AckSequence(...)
   | rewind               -- NewLocalReplicator: ResetReplicaIndex(AckIndex()+1)
@@ -194,7 +210,7 @@ def beginAt (st : St) (s : Int) : St :=
     | none => st
     | some (m, t) =>
       if validSeq st s then
-        { st with inflight := some ⟨s, m, t, false, false⟩ }
+        { st with inflight := some (InFlight.fresh s m t) }
       else st                                     -- rejected: returns before the deferred commit
 
 def doApplyBegin (st : St) : St :=
@@ -210,9 +226,26 @@ def addNames (st : St) (m t : Nat) : St :=
               index := st.index.create (m, t),                  -- series / forward / inverted entries
               tagv := st.tagv.create (m, t) }                   -- GenTagValueID
 
-/-- the row lands in the memdb that `WriteRows` took at its start -/
-def putRow (st : St) (toFrozen : Bool) (row : Row) : St :=
-  if toFrozen then
+/-- `WriteRows`: `GetOrCreateMemoryDatabase` — from here on the target memdb is fixed -/
+def doApplyTake (cfg : Cfg) (st : St) : St :=
+  match st.inflight with
+  | some fl =>
+    if fl.taken then st
+    else { st with inflight := some { fl with taken := true, acquired := cfg.atomicAcquire } }
+  | none => st
+
+/-- `WriteRows`: `db.AcquireWrite()` -/
+def doApplyAcquire (st : St) : St :=
+  match st.inflight with
+  | some fl =>
+    if fl.taken && !fl.acquired then { st with inflight := some { fl with acquired := true } } else st
+  | none => st
+
+/-- the row lands in the memdb that `WriteRows` took at its start; a memdb that was closed in the
+meantime is referenced by nobody: the row is gone -/
+def putRow (st : St) (toFrozen closed : Bool) (row : Row) : St :=
+  if closed then st
+  else if toFrozen then
     match st.frozen with
     | some fz => { st with frozen := some { fz with rows := row :: fz.rows } }
     | none => st      -- unreachable (invariant `to_frozen`)
@@ -221,9 +254,9 @@ def putRow (st : St) (toFrozen : Bool) (row : Row) : St :=
 def doApplyWrite (st : St) : St :=
   match st.inflight with
   | some fl =>
-    if fl.written then st else
+    if fl.written || !fl.acquired then st else
     addNames (putRow { st with inflight := some { fl with written := true } }
-      fl.toFrozen ⟨fl.seq, fl.metric, fl.tagv⟩) fl.metric fl.tagv
+      fl.toFrozen fl.closed ⟨fl.seq, fl.metric, fl.tagv⟩) fl.metric fl.tagv
   | none => st
 
 def doApplyCommit (st : St) : St :=
@@ -231,17 +264,25 @@ def doApplyCommit (st : St) : St :=
   | some fl => if fl.written then { st with seq := some fl.seq, inflight := none } else st
   | none => st
 
+/-- what `freeze` does to the in-flight write: mark it when its (taken) memdb is the one being frozen -/
+def freezeMark (fl : InFlight) : InFlight :=
+  if fl.taken && !fl.written && !fl.closed then { fl with toFrozen := true } else fl
+
+/-- `memDB.Close` of the flushed memdb while the in-flight write still targets it -/
+def closeMark (fl : InFlight) : InFlight :=
+  if fl.toFrozen && !fl.written then { fl with closed := true } else fl
+
 def doFreeze (st : St) : St :=
   match st.frozen, st.memMut with
   | none, r :: rs =>
     { st with frozen := some ⟨r :: rs, st.seq, false⟩, memMut := [],
-              inflight := st.inflight.map (fun fl => if fl.written then fl else { fl with toFrozen := true }) }
+              inflight := st.inflight.map freezeMark }
   | _, _ => st
 
 /-- `FlushFamilyTo` first waits for writers of this memdb (`writeCondition.Wait`) -/
 def writerPending (st : St) : Bool :=
   match st.inflight with
-  | some fl => fl.toFrozen && !fl.written
+  | some fl => fl.toFrozen && fl.acquired && !fl.written && !fl.closed
   | none => false
 
 /-- `storeFlusher.Commit` adds a `CreateSequence` record only for leaders present in the captured map;
@@ -264,12 +305,17 @@ def doAckCallback (st : St) : St :=
   match st.frozen with
   | some fz =>
     if fz.committed then
-      { ackOpt st fz.captured with frozen := none }
+      { ackOpt st fz.captured with frozen := none, inflight := st.inflight.map closeMark }
     else st
   | none => st
 
 def doLogGC (st : St) (k : Int) : St :=
   if st.gcLow ≤ k ∧ k ≤ st.groupAck + 1 then { st with gcLow := k } else st
+
+/-- `partition.IsExpire` for a family past its write window: every consumer group `IsEmpty`
+(`appended <= acknowledged`) -> stop, close, remove the log directory -/
+def doWalExpire (st : St) : St :=
+  if st.inflight.isNone ∧ st.appended ≤ st.groupAck then { st with walGone := true } else st
 
 def doCrash (st : St) : St :=
   { st with phase := .down, seq := none, memMut := [], frozen := none, inflight := none,
@@ -278,7 +324,8 @@ def doCrash (st : St) : St :=
 /-- `newDataFamily`: `seq = persistSeq =` sequences of the recovered version;
 `NewLocalReplicator`: `family.AckSequence(leader, fn)` runs `fn(persistSeq)` at once. -/
 def doRecover (st : St) : St :=
-  ackOpt { st with phase := .opened, seq := st.stored } st.stored
+  if st.walGone then { st with phase := .running, seq := st.stored }   -- no log directory: no partition, no replicator
+  else ackOpt { st with phase := .opened, seq := st.stored } st.stored
 
 /-- `lr.ResetReplicaIndex(lr.AckIndex() + 1)` = `SetConsumedSeq(ack)` -/
 def doRewind (st : St) : St :=
@@ -292,8 +339,10 @@ def step (cfg : Cfg) (st : St) (e : Ev) : St :=
   | .crash => doCrash st
   | .recover => if st.phase = .down then doRecover st else st
   | .rewind => if st.phase = .opened then doRewind st else st
-  | .append m t => whenRunning st (doAppend st m t)
-  | .applyBegin => whenRunning st (doApplyBegin st)
+  | .append m t => whenRunning st (if st.walGone then st else doAppend st m t)
+  | .applyBegin => whenRunning st (if st.walGone then st else doApplyBegin st)
+  | .applyTake => whenRunning st (doApplyTake cfg st)
+  | .applyAcquire => whenRunning st (doApplyAcquire st)
   | .applyWrite => whenRunning st (doApplyWrite st)
   | .applyCommit => whenRunning st (doApplyCommit st)
   | .metaPrepare => whenRunning st { st with metric := st.metric.prepare cfg, tagv := st.tagv.prepare cfg }
@@ -305,6 +354,7 @@ def step (cfg : Cfg) (st : St) (e : Ev) : St :=
   | .dataCommit => whenRunning st (doDataCommit st)
   | .ackCallback => whenRunning st (doAckCallback st)
   | .logGC k => whenRunning st (doLogGC st k)
+  | .walExpire => whenRunning st (doWalExpire st)
 
 def run (cfg : Cfg) (st : St) (evs : List Ev) : St := evs.foldl (step cfg) st
 
@@ -328,6 +378,6 @@ def flushRound : List Ev :=
    .freeze, .dataCommit, .ackCallback]
 
 /-- the event order of one `localReplicator.Replica` -/
-def applyRound : List Ev := [.applyBegin, .applyWrite, .applyCommit]
+def applyRound : List Ev := [.applyBegin, .applyTake, .applyAcquire, .applyWrite, .applyCommit]
 
 end LinVerif.NodeRecovery
